@@ -136,6 +136,10 @@ func ToItems(m map[string]Val, names []string) map[string]*types.Item {
 var Numerals = []Val{
 	{Kind: "N", N: 0, NTxt: "0"}, {Kind: "N", N: 7, NTxt: "7"}, {Kind: "N", N: -3, NTxt: "-3"},
 	{Kind: "N", N: 10, NTxt: "10.0"}, {Kind: "N", N: 10, NTxt: "1e1"}, {Kind: "N", N: 0, NTxt: "-0"}, {Kind: "N", N: 5, NTxt: "005"},
+	// beyond what a float64 holds: compared as exact decimals (SameNumeral); N is not meaningful for these
+	{Kind: "N", NTxt: "1790000000123456789"}, {Kind: "N", NTxt: "-9007199254740993"},
+	{Kind: "N", NTxt: "0.12345678901234567890123456789012345678"}, {Kind: "N", NTxt: "9.9999999999999999999999999999999999999e125"},
+	{Kind: "N", NTxt: "1e-130"}, {Kind: "N", NTxt: "0.1"},
 }
 
 // GenTree draws an attribute-value tree: any of the ten types, containers nested up to depth levels with
@@ -153,7 +157,13 @@ func GenTree(name string, depth, width int) Val {
 		case "S":
 			return Val{Kind: "S", S: nd.StringN(name+".s", nd.Choice(name+".slen", 3))}
 		case "N":
-			return Numerals[nd.Choice(name+".num", len(Numerals))]
+			// the numerals beyond float64 precision only where the harness asks for them (a write/read round trip
+			// must keep them; what an UpdateItem computes with them is C12's subject, not that of its users)
+			nn := 7
+			if nd.Param("precise", 0) == 1 {
+				nn = len(Numerals)
+			}
+			return Numerals[nd.Choice(name+".num", nn)]
 		case "B":
 			return Val{Kind: "B", B: nd.Bytes(name+".bin", nd.Choice(name+".blen", 3))}
 		case "BOOL":
